@@ -306,23 +306,80 @@ def cover(seed, budget, min_stacks=0, max_depth=5):
 
 
 def all_kind_sequences(max_depth):
-    """Every well-kinded sequence of layer kinds (outermost first) up to max_depth layers (for the C13 thorough tier)."""
+    """Every well-kinded sequence of layer kinds up to max_depth layers (C13 thorough tier).
+    Returns a list of (kinds outermost-first, base) where base says whether the primitive's coordinate scalar
+    is an integer or a real type ('int' / 'real')."""
     out = []
 
-    def grow(seq, interp_done, has_real, depth_left, innermost):
-        # seq is innermost-first
-        out.append(list(reversed(seq)))
+    def grow(seq, level, out_real, interp_done, base, depth_left):
+        out.append((list(reversed(seq)), base))
         if depth_left == 0:
             return
-        opts = list(WRAPS)
-        if not interp_done:
-            opts += list(INTERPS)
-        opts.append("affine")
-        for k in opts:
-            grow(seq + [k], interp_done or k in INTERPS, has_real, depth_left - 1, innermost)
+        for k in WRAPS:
+            grow(seq + [k], level, True if k == "covariant_cast" else out_real, interp_done, base, depth_left - 1)
+        if level == "int" and not interp_done:
+            grow(seq + ["nearest_neighbour"], "real", out_real, True, base, depth_left - 1)
+            if out_real:
+                grow(seq + ["linear"], "real", out_real, True, base, depth_left - 1)
+        if level == "real":
+            grow(seq + ["affine"], level, out_real, interp_done, base, depth_left - 1)
 
-    for prim in ("identity", "constant"):
-        grow([prim], False, True, max_depth - 1, prim)
     for o in ORDERS:
-        grow(["array", o], False, False, max_depth - 2, o)
+        grow(["array", o], "int", True, False, "int", max_depth - 2)
+    grow(["identity"], "int", False, False, "int", max_depth - 1)
+    grow(["identity"], "real", True, False, "real", max_depth - 1)
+    grow(["constant"], "int", True, False, "int", max_depth - 1)
+    grow(["constant"], "real", True, False, "real", max_depth - 1)
     return out
+
+
+def from_kinds(kinds, base, rng):
+    """Assign N, M, scalars, permutations to a kind sequence (outermost first); None if the view would exceed 256 bytes."""
+    inner_first = list(reversed(kinds))
+    N = rng.choice([1, 2, 3, 4])
+    M = rng.choice([1, 2, 3, 4])
+    layers = []
+    prim = inner_first[0]
+    rest = inner_first[1:]
+    if prim == "array":
+        order = rest[0]
+        rest = rest[1:]
+        if order == "hilbert":
+            N = 2
+        T = rng.choice(REAL)
+        layers.append({"kind": "array", "N": 1, "in": "size_t", "M": M, "out": T, "ref": True})
+        lay = {"kind": order, "N": N, "in": rng.choice(INDEX), "M": M, "out": T, "ref": True}
+        if order == "morton":
+            lay["bmi2"] = rng.choice([True, False])
+        layers.append(lay)
+    elif prim == "identity":
+        X = rng.choice(["int", "size_t", "long", "unsigned"]) if base == "int" else rng.choice(REAL)
+        layers.append({"kind": "identity", "N": N, "in": X, "M": N, "out": X, "ref": False})
+    else:
+        X = rng.choice(["int", "size_t", "unsigned"]) if base == "int" else rng.choice(REAL)
+        layers.append({"kind": "constant", "N": N, "in": X, "M": M, "out": rng.choice(REAL), "ref": False})
+    for idx, k in enumerate(rest):
+        top = layers[-1]
+        n, cin, m, cout, ref = top["N"], top["in"], top["M"], top["out"], top["ref"]
+        if k == "clamp":
+            layers.append({"kind": k, "N": n, "in": cin, "M": m, "out": cout, "ref": ref})
+        elif k in ("backup", "dereference"):
+            layers.append({"kind": k, "N": n, "in": cin, "M": m, "out": cout, "ref": False})
+        elif k == "shuffle":
+            perm = list(range(n))
+            rng.shuffle(perm)
+            layers.append({"kind": k, "N": n, "in": cin, "M": m, "out": cout, "ref": ref, "perm": perm})
+        elif k == "covariant_cast":
+            # a later linear layer needs a floating output
+            need_real = "linear" in rest[idx + 1:]
+            tgt = rng.choice(REAL) if need_real else rng.choice(["float", "double", "int", "long"])
+            layers.append({"kind": k, "N": n, "in": cin, "M": m, "out": tgt, "ref": False, "target": tgt})
+        elif k in INTERPS:
+            layers.append({"kind": k, "N": n, "in": rng.choice(REAL), "M": m, "out": cout, "ref": ref if k == "nearest_neighbour" else False})
+        elif k == "affine":
+            layers.append({"kind": k, "N": n, "in": cin, "M": m, "out": cout, "ref": ref})
+    layers.reverse()
+    check_kinds(layers)
+    if view_size(layers)[0] > 256:
+        return None
+    return layers
